@@ -558,3 +558,53 @@ func stringsVal(v reflect.Value, out *[]string, depth int) {
 		*out = append(*out, string(append([]byte(nil), v.String()...))) // a copy: the point is to notice if the original changes
 	}
 }
+
+// ScribbleSpare overwrites the spare capacity (the elements between len and cap) of every slice
+// reachable from v whose elements are not octets, and returns the number of scalars written. A
+// decoded list never aliases the datagram (only octet slices do), so what lies beyond its length
+// belongs to nobody else: an append by the caller writes there, and nothing the caller can see
+// may change when it does.
+func ScribbleSpare(v any) int {
+	if v == nil {
+		return 0
+	}
+	n := 0
+	scribbleSpareVal(reflect.ValueOf(v), &n, 0)
+	return n
+}
+
+func scribbleSpareVal(v reflect.Value, n *int, depth int) {
+	if depth > 12 {
+		return
+	}
+	switch v.Kind() {
+	case reflect.Ptr, reflect.Interface:
+		if !v.IsNil() {
+			scribbleSpareVal(v.Elem(), n, depth+1)
+		}
+	case reflect.Slice:
+		for i := 0; i < v.Len(); i++ {
+			scribbleSpareVal(v.Index(i), n, depth+1)
+		}
+		if v.Type().Elem().Kind() != reflect.Uint8 && v.Cap() > v.Len() && v.CanInterface() {
+			full := v.Slice3(0, v.Cap(), v.Cap())
+			for i := v.Len(); i < v.Cap(); i++ {
+				e := full.Index(i)
+				switch e.Kind() {
+				case reflect.Ptr, reflect.Interface:
+					// a pointer / interface slot in spare capacity: nothing of ours to write through
+				default:
+					scribbleVal(e, true, n, depth+1)
+				}
+			}
+		}
+	case reflect.Array:
+		for i := 0; i < v.Len(); i++ {
+			scribbleSpareVal(v.Index(i), n, depth+1)
+		}
+	case reflect.Struct:
+		for i := 0; i < v.NumField(); i++ {
+			scribbleSpareVal(v.Field(i), n, depth+1)
+		}
+	}
+}
